@@ -339,6 +339,7 @@ class Planner:
         self.rng, self.named, self.ht = rng, named, ht
         self.soft, self.budget = soft_depth, node_budget
         self.out, self.nodes = [], 0
+        self.forced = 0           # number of union draws (depth first) that must take the branch that recurses
 
     def draw(self, kind, n):
         r = fresh(self.rng, kind, n)
@@ -355,7 +356,12 @@ class Planner:
             raise Budget()
         if isinstance(s, list):
             n = len(s)
-            if depth >= self.soft or self.nodes > self.budget:
+            if self.forced > 0:
+                hs = [self.ht(b) for b in s]
+                i = hs.index(max(hs))
+                self.forced -= 1
+                self.out.append(("i", n, i))
+            elif depth >= self.soft or self.nodes > self.budget:
                 hs = [self.ht(b) for b in s]
                 best = min(hs)
                 i = self.rng.choice([k for k, x in enumerate(hs) if x == best])
@@ -1307,7 +1313,7 @@ def run_reuse(ctx, entries, cap):
     for raw0, script in REUSE_FIXED:
         hists.append(run_history(ctx, raw0, script, rng, cap))
     cands = [e for e in entries if isinstance(e.raw, (dict, list)) and e.finish != INF and e.cost <= cap // 4]
-    want = 90 if quick else 2500
+    want = 75 if quick else 2500
     tries = 0
     while len(hists) < want + len(REUSE_FIXED) and tries < want * 4 and cands:
         tries += 1
@@ -1365,13 +1371,271 @@ def replay_history(ctx, c):
     return ok and len(ctx.violations) == before
 
 
+# ------------------------------------------------------------------ corr:gen-depth: the recursive branch k times in a row
+DEPTH_SCHEMAS = [
+    {"type": "record", "name": "Expr", "fields": [{"name": "op", "type": {"type": "enum", "name": "Op", "symbols": ["ADD", "NEG"]}},
+                                                   {"name": "arg", "type": ["long", "Expr"]}]},
+    {"type": "record", "name": "Chain", "namespace": "deep", "fields": [{"name": "next", "type": ["Chain", "string"]}, {"name": "v", "type": "int"}]},
+    {"type": "record", "name": "Bush", "fields": [{"name": "kids", "type": ["boolean", {"type": "array", "items": "Bush"}]}]},
+    {"type": "record", "name": "A", "fields": [{"name": "b", "type": [{"type": "record", "name": "B", "fields": [{"name": "a", "type": ["A", "string"]}]}, "int"]}]},
+    {"type": "record", "name": "Opt", "fields": [{"name": "next", "type": ["null", "Opt"]}, {"name": "m", "type": {"type": "map", "values": ["double", "Opt"]}}]},
+]
+SIG_DEPTH = "C20:generate:deeply-nested-recursive-value:not-a-datum-of-the-schema"
+
+
+def run_depth(ctx):
+    rng = ctx.rng
+    depths = list(range(1, 13)) + ([15, 20] if ctx.quick() else list(range(13, 46)))
+    runs = []
+    for raw in DEPTH_SCHEMAS:
+        e = prepare(raw, "depth")
+        for k in depths:
+            for rep in range(1 if ctx.quick() else 3):
+                pl = Planner(rng, e.named, e.ht, soft_depth=0, node_budget=10 ** 9)
+                pl.forced = k
+                try:
+                    pl.go(e.parsed)
+                except (Budget, RecursionError):
+                    continue
+                if len(pl.out) > 20000:
+                    continue
+                case = dict(mode="one" if rng.random() < 0.3 else "many", n=1, use_raw=rng.random() < 0.5, feed=pl.out)
+                case["schema_arg"] = e.raw if case["use_raw"] else e.parsed
+                st, vals, rec, mm = run_impl(case, rng)
+                runs.append((e, case, st, vals, rec, mm, k))
+    model = core.coq_eval([model_expr(e, case, rec) for e, case, st, vals, rec, mm, k in runs], IMPORTS, ctx.workdir, tag="c20d", shard=12)
+    for (e, case, st, vals, rec, mm, k), m in zip(runs, model):
+        corr = "corr:gen-depth"
+        cj = dict(case_json(e, case, rec), recursive_branch_taken=k)
+        ctx.count(corr, (json.dumps(e.raw, sort_keys=True), k, tuple(stream_of(rec))))
+        if st != "ok":
+            ctx.violation(corr, cj, impl=st, model=m, signature="C20:gen-depth:" + st.replace("raised:", "raised-"), found_input=True,
+                          detail="generation failed on a stream that takes the recursive union branch %d times in a row" % k)
+            continue
+        holds, symptom, why = predicate(e, case["schema_arg"], vals, 1, check_container=(k % 4 == 0))
+        t = impl_text(case, vals)
+        if not holds:
+            ctx.violation(corr, cj, impl=t[:1200], model=(m or "")[:1200], signature=SIG_DEPTH, found_input=True,
+                          detail="the recursive union branch taken %d times in a row: %s" % (k, why))
+        elif t != m:
+            ctx.violation(corr, cj, impl=t[:1200], model=(m or "")[:1200], signature="C20:model-differs", found_input=False,
+                          detail="deep recursive value differs from the model's on the recorded draws; it still conforms")
+    ctx.notes["depth_family_max_recursive_steps"] = max(depths)
+
+
+# ------------------------------------------------------------------ corr:gen-interleave: several live generators at once
+SIG_INTERLEAVE = "C20:generate_many:interleaved-generators:value-built-from-another-schema's-named-type"
+
+
+def _pair(x_a, x_b, name="X"):
+    """two schemas that define the named type `name` differently and refer to it by name"""
+    def outer(x, k):
+        return {"type": "record", "name": "Outer", "fields": [{"name": "first", "type": x}, {"name": "second", "type": name},
+                                                               {"name": "more", "type": {"type": "array", "items": name}},
+                                                               {"name": "opt", "type": ["null", name]}]}
+    return outer(x_a, 0), outer(x_b, 1)
+
+
+INTERLEAVE_FAMILIES = [
+    _pair({"type": "record", "name": "X", "fields": [{"name": "a", "type": "int"}]},
+          {"type": "record", "name": "X", "fields": [{"name": "a", "type": "string"}, {"name": "b", "type": "double"}]}),
+    _pair({"type": "enum", "name": "X", "symbols": ["A", "B"]}, {"type": "enum", "name": "X", "symbols": ["C", "D", "E"]}),
+    _pair({"type": "fixed", "name": "X", "size": 2}, {"type": "fixed", "name": "X", "size": 5}),
+    _pair({"type": "enum", "name": "X", "symbols": ["A"]}, {"type": "record", "name": "X", "fields": [{"name": "k", "type": "long"}]}),
+    ({"type": "array", "items": {"type": "record", "name": "n.Item", "fields": [{"name": "id", "type": {"type": "fixed", "name": "n.Id", "size": 4}},
+                                                                                 {"name": "again", "type": "n.Id"}]}},
+     {"type": "map", "values": {"type": "record", "name": "n.Item", "fields": [{"name": "id", "type": {"type": "fixed", "name": "n.Id", "size": 1}},
+                                                                                {"name": "again", "type": ["n.Id", "null"]}]}}),
+]
+
+
+class TaggedSource(Source):
+    """records the draws separately for each consumer (generator) that is running"""
+
+    def __init__(self, rng):
+        super().__init__(rng, None)
+        self.tag, self.by_tag = None, {}
+
+    def take(self, kind, n):
+        r = super().take(kind, n)
+        self.by_tag.setdefault(self.tag, []).append(self.rec[-1])
+        return r
+
+
+def run_interleaved(schemas, ops, rng):
+    """ops: ('next', i) on the live generator generate_many(schemas[i], big) | ('one', i) = generate_one(schemas[i]).
+    -> list of (kind, i, status, value), draws by consumer"""
+    import fastavro.utils as U
+    src = TaggedSource(rng)
+    old_r, old_u = U.random, U.uuid
+    U.random, U.uuid = RandomProxy(src), UuidProxy(src)
+    out = []
+    try:
+        gens = [U.generate_many(S, 1000) for S in schemas]
+        ones = 0
+        for kind, i in ops:
+            if kind == "next":
+                src.tag = ("g", i)
+                fn = lambda: next(gens[i])
+            else:
+                src.tag = ("o", ones)
+                ones += 1
+                fn = lambda: U.generate_one(schemas[i])
+            try:
+                out.append((kind, i, "ok", core.with_timeout(fn, 20), src.tag))
+            except Budget:
+                out.append((kind, i, "Budget", None, src.tag))
+                break
+            except core.Timeout:
+                out.append((kind, i, "timeout", None, src.tag))
+                break
+            except Exception as ex:
+                out.append((kind, i, "raised:" + type(ex).__name__, None, src.tag))
+                break
+    finally:
+        U.random, U.uuid = old_r, old_u
+    return out, src.by_tag
+
+
+def interleave_ops(rng, k, length):
+    ops = []
+    for j in range(length):
+        r = rng.random()
+        if r < 0.2:
+            ops.append(("one", rng.randrange(k)))
+        else:
+            ops.append(("next", j % k if r < 0.7 else rng.randrange(k)))
+    return ops
+
+
+def evaluate_interleaved(ctx, schemas_raw, entries, ops, out, by_tag, models, replaying=False):
+    corr = "corr:gen-interleave"
+    cj = dict(kind="interleave", schemas=schemas_raw, ops=[list(o) for o in ops],
+              draws={"%s%d" % t: [[k, str(n), str(d)] for k, n, d in rec] for t, rec in by_tag.items()})
+    ok = True
+    seen = {}
+    for kind, i, st, v, tag in out:
+        ctx.count(corr, (json.dumps(schemas_raw, sort_keys=True), tag, tuple(stream_of(by_tag.get(tag, [])))))
+        e = entries[i]
+        if st != "ok":
+            ctx.violation(corr, cj, impl=st, model=None, signature="C20:gen-interleave:" + st.replace("raised:", "raised-"), found_input=True,
+                          detail="%s on schema #%d raised / did not finish while other generators were live" % (kind, i))
+            return False
+        holds, symptom, why = predicate(e, copy.deepcopy(e.raw), [v], 1, check_container=False)
+        if not holds:
+            ctx.violation(corr, cj, impl=G.show_py(v)[:1200], model=None, signature=SIG_INTERLEAVE, found_input=True,
+                          detail="value yielded for schema #%d (%s, step %d of %s) while generators for the other schemas were live: %s"
+                                 % (i, kind, len(seen), [list(o) for o in ops], why))
+            return False
+        seen.setdefault(tag, []).append(v)
+    # against the model: each consumer's values on that consumer's own draws
+    for tag, vals in seen.items():
+        m = models.get(tag)
+        t = ("G:" + G.show_py(list(vals)) + "|0") if tag[0] == "g" else ("G:" + G.show_py(vals[0]) + "|0")
+        if m is not None and t != m:
+            ctx.violation(corr, cj, impl=t[:1200], model=(m or "")[:1200], signature="C20:model-differs", found_input=False,
+                          detail="values of consumer %s%d differ from the model's on that consumer's draws; each still conforms to its schema" % tag)
+            ok = False
+    return ok
+
+
+def interleave_models(ctx, entries, ops, out, by_tag, tag_name):
+    """Gallina expressions per consumer"""
+    exprs, keys = [], []
+    count = {}
+    one_schema = {}
+    for kind, i, st, v, tag in out:
+        if st == "ok":
+            count[tag] = count.get(tag, 0) + 1
+            one_schema[tag] = i
+    for tag, c in count.items():
+        e = entries[one_schema[tag]]
+        draws = G.clist(G.zlit(d) for d in stream_of(by_tag.get(tag, [])))
+        if tag[0] == "g":
+            exprs.append("run_gen_many %s %s %s %s" % (e.coq_env, e.coq_schema, G.zlit(c), draws))
+        else:
+            exprs.append("run_gen_one %s %s %s" % (e.coq_env, e.coq_schema, draws))
+        keys.append(tag)
+    return exprs, keys
+
+
+def run_interleave(ctx, entries, cap):
+    rng = ctx.rng
+    fams = [list(p) for p in INTERLEAVE_FAMILIES]
+    # variants of generated schemas: the same names, one definition edited
+    cands = [e for e in entries if isinstance(e.raw, dict) and not e.cyclic and e.cost <= cap // 6 and e.named
+             and (refs_of(e.parsed, set()) or any(refs_of(v, set()) for v in e.named.values()))]
+    want = 18 if ctx.quick() else 600
+    tries = 0
+    while len(fams) < want and tries < want * 6 and cands:
+        tries += 1
+        e = rng.choice(cands)
+        group = [copy.deepcopy(e.raw)]
+        for _ in range(rng.choice([1, 1, 2])):
+            S = copy.deepcopy(e.raw)
+            changed = False
+            for j in range(2):
+                ed = pick_edit(rng, S, 100 + j)
+                if ed is None:
+                    continue
+                inv = apply_edit(S, ed)
+                try:
+                    pe = prepare(copy.deepcopy(S), "interleave")
+                    if pe.cyclic or pe.cost > cap // 4:
+                        raise ValueError("too large")
+                    changed = True
+                except Exception:
+                    apply_edit(S, inv)
+            if changed:
+                group.append(S)
+        if len(group) >= 2:
+            fams.append(group)
+    jobs = []
+    for group in fams:
+        ents = [prepare(copy.deepcopy(S), "interleave") for S in group]
+        for _ in range(2 if ctx.quick() else 3):
+            order = list(range(len(group)))
+            rng.shuffle(order)
+            schemas = [copy.deepcopy(group[i]) for i in order]
+            es = [ents[i] for i in order]
+            ops = interleave_ops(rng, len(schemas), rng.choice([4, 6, 7]))
+            out, by_tag = run_interleaved(schemas, ops, rng)
+            exprs, keys = interleave_models(ctx, es, ops, out, by_tag, "c20i")
+            jobs.append(([group[i] for i in order], es, ops, out, by_tag, exprs, keys))
+    flat = [x for j in jobs for x in j[5]]
+    res = core.coq_eval(flat, IMPORTS, ctx.workdir, tag="c20i", shard=max(8, len(flat) // 24))
+    pos = 0
+    for raws, es, ops, out, by_tag, exprs, keys in jobs:
+        models = dict(zip(keys, res[pos:pos + len(exprs)]))
+        pos += len(exprs)
+        evaluate_interleaved(ctx, raws, es, ops, out, by_tag, models)
+    ctx.notes["interleave_groups"] = len(fams)
+    ctx.notes["interleave_runs"] = len(jobs)
+
+
+def replay_interleave(ctx, c):
+    schemas = c["schemas"]
+    es = [prepare(copy.deepcopy(S), "interleave") for S in schemas]
+    ops = [tuple(o) for o in c["ops"]]
+    out, by_tag = run_interleaved([copy.deepcopy(S) for S in schemas], ops, _random.Random(0))
+    exprs, keys = interleave_models(ctx, es, ops, out, by_tag, "c20ir")
+    res = core.coq_eval(exprs, IMPORTS, ctx.workdir, tag="c20ir")
+    before = len(ctx.violations)
+    ok = evaluate_interleaved(ctx, schemas, es, ops, out, by_tag, dict(zip(keys, res)))
+    for kind, i, st, v, tag in out:
+        print("%s schema #%d: %s %s" % (kind, i, st, G.show_py(v)[:160] if st == "ok" else ""))
+    for v in ctx.violations[before:]:
+        print("still fails:", v["signature"], "-", (v.get("detail") or "")[:400])
+    return ok and len(ctx.violations) == before
+
+
 def run(ctx):
     import fastavro
     import fastavro.utils as U
     rng = ctx.rng
     quick = ctx.quick()
     cap = 2500 if quick else 12000
-    n_random = 420 if quick else 9000
+    n_random = 360 if quick else 9000
     per_schema = 2 if quick else 4
 
     # ---- constants of utils.py against the model's
@@ -1480,11 +1744,17 @@ def run(ctx):
     # ---- one schema object across several calls, edited in place in between
     run_reuse(ctx, entries, cap)
 
+    # ---- several live generators over schemas that define the same names differently; deep recursion through non-null unions
+    run_interleave(ctx, entries, cap)
+    run_depth(ctx)
+
 
 def replay(ctx, rep):
     c = rep["case"]
     if c.get("kind") == "history":
         return replay_history(ctx, c)
+    if c.get("kind") == "interleave":
+        return replay_interleave(ctx, c)
     entry = prepare(c["schema"], c.get("tag", "replay"))
     case = dict(mode=c["mode"], n=c["n"], use_raw=c["use_raw"])
     case["schema_arg"] = entry.raw if c["use_raw"] else entry.parsed
